@@ -71,6 +71,13 @@ def buffered_reader(ctx, R, roles, T, rule="BUF"):
             if T.term(f, n, a.value) == ("proj", pt, 1) and isinstance(unawait(a.value), ast.Name):
                 adds.append(n)
                 buf = varkey(a.target)
+        elif n.kind == "stmt" and isinstance(a, ast.Expr) and isinstance(unawait(a.value), ast.Call):
+            # <buf>.extend(data): the in-place spelling of `+=` for a bytearray
+            c_ = unawait(a.value)
+            if isinstance(c_.func, ast.Attribute) and c_.func.attr == "extend" and len(c_.args) == 1 and not c_.keywords and varkey(c_.func.value) \
+                    and T.term(f, n, c_.args[0]) == ("proj", pt, 1):
+                adds.append(n)
+                buf = varkey(c_.func.value)
     R.check(len(adds) == 1, rule, q + "|append", "each WRTE payload is appended once", "the payload just read is appended %d times per iteration (must be exactly once, unmodified)" % len(adds), f.loc(pn.ast))
     if len(adds) != 1:
         return
@@ -98,13 +105,28 @@ def buffered_reader(ctx, R, roles, T, rule="BUF"):
     bufroot, bufattr = buf.rsplit(".", 1) if "." in buf else (None, buf)
     B0 = ("attr", ("p", bufroot), bufattr) if bufroot else ("p", buf)
     rem = [n for n in g.live_nodes() if n.kind == "stmt" and isinstance(n.ast, ast.Assign) and any(varkey(t) == buf for t in n.ast.targets) and n not in inside]
+    # the in-place cut: del <buf>[:size]
+    dels = [n for n in g.live_nodes() if n.kind == "stmt" and isinstance(n.ast, ast.Delete) and n not in inside
+            and any(isinstance(t, ast.Subscript) and varkey(t.value) == buf for t in n.ast.targets)]
+    in_place = not rem and len(dels) == 1
+    if in_place:
+        rem = dels
     R.check(len(rem) == 1, rule, q + "|remainder-site", "one remainder assignment", "expected one assignment of the remainder to the buffer, found %d" % len(rem), f.loc())
+    if in_place or any(isinstance(n.ast, ast.Expr) for n in adds):
+        _buffer_stays_bytearray(ctx, R, roles, T, rule, bufattr)
     NONE = ("c", None)
     if len(rem) == 1:
         X = T.term(f, rem[0], _mk(buf))          # the buffer as it is just before it is cut
-        rv = T.term(f, rem[0], rem[0].ast.value)
-        rok = rv == ("slice", X, ("p", size), NONE, NONE)
-        R.check(rok, rule, q + "|remainder", "the buffer keeps buffer[size:]", "the remainder kept is `%s`, not buffer[size:]: bytes are lost or duplicated at record boundaries" % src(rem[0].ast.value), f.loc(rem[0].ast))
+        if in_place:
+            tg = rem[0].ast.targets[0] if len(rem[0].ast.targets) == 1 else None
+            sl = tg.slice if tg is not None and isinstance(tg.slice, ast.Slice) else None
+            rok = sl is not None and sl.step is None and (sl.lower is None or (isinstance(sl.lower, ast.Constant) and sl.lower.value in (0, None))) \
+                and sl.upper is not None and T.term(f, rem[0], sl.upper) == ("p", size)
+            R.check(rok, rule, q + "|remainder", "the first `size` bytes are removed from the buffer in place", "`%s` does not remove exactly buffer[:size]: bytes are lost or duplicated at record boundaries" % src(rem[0].ast), f.loc(rem[0].ast))
+        else:
+            rv = T.term(f, rem[0], rem[0].ast.value)
+            rok = rv == ("slice", X, ("p", size), NONE, NONE)
+            R.check(rok, rule, q + "|remainder", "the buffer keeps buffer[size:]", "the remainder kept is `%s`, not buffer[size:]: bytes are lost or duplicated at record boundaries" % src(rem[0].ast.value), f.loc(rem[0].ast))
         R.check(g.dominates([head], rem[0]), rule, q + "|cut-after-refill", "the buffer is cut after the refill loop", "the buffer is cut before the refill loop has completed", f.loc(rem[0].ast))
         # nothing else touches the buffer between the loop and the cut
         defs = df.reaching(rem[0], buf)
@@ -120,7 +142,50 @@ def buffered_reader(ctx, R, roles, T, rule="BUF"):
             if not ok:
                 why = "the record returned is %s, not buffer[:size] of the buffer before the cut" % show(rt)
             R.check(g.dominates([rem[0]], rn), rule, q + "|order|" + norm_stmt(rn.ast), "the buffer is cut before returning", "the buffer cut can be skipped before returning: the record would be delivered twice", f.loc(rn.ast))
+            if in_place:
+                # the record must have been copied out before the bytes were deleted
+                vn = unawait(v)
+                dres = df.unique_def(rn, vn.id) if isinstance(vn, ast.Name) else None
+                R.check(dres is not None and dres.kind == "assign" and g.dominates([dres.node], rem[0]) and dres.node is not rem[0], rule, q + "|copy-before-cut",
+                        "the record is sliced out before the bytes are deleted", "the record is taken after (or without) the in-place deletion: it would be the NEXT `size` bytes", f.loc(rn.ast))
         R.check(ok, rule, "%s|%s" % (q, norm_stmt(rn.ast)), "returns buffer[:size]", why, f.loc(rn.ast))
+
+
+def _buffer_stays_bytearray(ctx, R, roles, T, rule, attr):
+    """In-place operations (`del buf[:n]`, `buf.extend(x)`) need a bytearray: every store to the buffer attribute, anywhere,
+    must keep it one (a bytearray(...) construction, a slice of the buffer itself, or the buffer plus something)."""
+    from ..terms import alts_of
+
+    def is_buf(t):
+        while t[0] == "ver":
+            t = t[1]
+        return t[0] == "attr" and t[2] == attr
+
+    def ok_value(t):
+        for a in alts_of(t):
+            while a[0] == "ver":
+                a = a[1]
+            if a[0] == "call" and a[1] == "builtins.bytearray":
+                continue
+            if a[0] == "slice" and is_buf(a[1]):
+                continue
+            if a[0] in ("CONCAT",) and len(a) > 1 and is_buf(a[1]):
+                continue
+            if a[0] == "op" and a[1] == "+" and is_buf(a[2]):
+                continue
+            return False
+        return True
+    for fn in list(roles.mod.all_funcs) + list(ctx.pkg.mod("hidden_helpers").all_funcs):
+        g = ctx.cfg(fn)
+        for n in g.live_nodes():
+            a = n.ast
+            if n.kind == "stmt" and isinstance(a, ast.Assign):
+                for t in a.targets:
+                    for tt in (t.elts if isinstance(t, ast.Tuple) else [t]):
+                        if isinstance(tt, ast.Attribute) and tt.attr == attr:
+                            vt = T.term(fn, n, a.value) if not isinstance(t, ast.Tuple) else ("opaque",)
+                            R.check(ok_value(vt), rule, "%s|bytearray|%s" % (fn.qualname, norm_stmt(a)), "the buffer stays a bytearray (it is cut / extended in place)",
+                                    "`%s` can store %s in the receive buffer, which the in-place operations of the buffered reader need to be a bytearray" % (norm_stmt(a), show(vt)), fn.loc(a))
 
 
 def _mk(varname):
@@ -169,24 +234,33 @@ def record_reader(ctx, R, roles, T, rule="REC"):
     stat_wire = b"STAT"
     for rn in g.live_nodes():
         if rn.kind == "stmt" and isinstance(rn.ast, ast.Return):
-            rt = T.term(f, rn, rn.ast.value)
-            sub = "%s|%s" % (q, norm_stmt(rn.ast))
-            if not (rt[0] == "tuple" and len(rt) == 4):
-                R.fail(rule, sub, "record reader returns %s, not (id, header fields, data)" % show(rt), f.loc(rn.ast))
-                continue
-            R.check(rt[1] == cid, rule, sub + "|id", "id = FILESYNC_WIRE_TO_ID[header[0]]", "returned id is %s" % show(rt[1]), f.loc(rn.ast))
-            d = rt[3]
-            if d == ("c", None):
-                R.check(rt[2] == ("slice", hdr, ("c", 1), ("c", None), ("c", None)), rule, sub + "|fields", "no-payload record: all fields after the id",
-                        "fields returned for a record without payload are %s, expected header[1:]" % show(rt[2]), f.loc(rn.ast))
-                # only for STAT
-                facts = df.facts(rn)
-                R.check(_stat_only(ctx, f, rn, T, cid), rule, sub + "|stat-only", "only STAT records carry no payload", "a record other than STAT can be returned without reading its payload", f.loc(rn.ast))
-            else:
-                alts = set(d[1]) if d[0] == "phi" else {d}
-                R.check(pt in alts and alts <= {pt, ("call", "builtins.bytearray", (), ())} and rt[2] == ("slice", hdr, ("c", 1), ("c", -1), ("c", None)), rule, sub + "|fields",
-                        "payload record: fields between id and length, data = the payload just read",
-                        "record returned as (%s, %s): expected header[1:-1] and the payload just read" % (show(rt[2]), show(d)), f.loc(rn.ast))
+            rt0 = T.term(f, rn, rn.ast.value)
+            # one return for both kinds of record: a conditional on the record id
+            cases = [(rt0, None)]
+            if rt0[0] == "ite":
+                cases = [(rt0[2], (rt0[1], True)), (rt0[3], (rt0[1], False))]
+            for rt, guard in cases:
+                sub = "%s|%s%s" % (q, norm_stmt(rn.ast), "" if guard is None else "|case-%s" % guard[1])
+                if not (rt[0] == "tuple" and len(rt) == 4):
+                    R.fail(rule, sub, "record reader returns %s, not (id, header fields, data)" % show(rt), f.loc(rn.ast))
+                    continue
+                R.check(rt[1] == cid, rule, sub + "|id", "id = FILESYNC_WIRE_TO_ID[header[0]]", "returned id is %s" % show(rt[1]), f.loc(rn.ast))
+                d = rt[3]
+                if d == ("c", None):
+                    R.check(rt[2] == ("slice", hdr, ("c", 1), ("c", None), ("c", None)), rule, sub + "|fields", "no-payload record: all fields after the id",
+                            "fields returned for a record without payload are %s, expected header[1:]" % show(rt[2]), f.loc(rn.ast))
+                    # only for STAT
+                    stat = _stat_only(ctx, f, rn, T, cid)
+                    if not stat and guard is not None and guard[0][0] == "cond":
+                        c_ = guard[0][1]
+                        stat = (c_ == ("cmp", cid, ("c", "Eq"), ("c", b"STAT")) and guard[1] is True) or (c_ == ("cmp", cid, ("c", "NotEq"), ("c", b"STAT")) and guard[1] is False)
+                    R.check(stat, rule, sub + "|stat-only", "only STAT records carry no payload", "a record other than STAT can be returned without reading its payload", f.loc(rn.ast))
+                else:
+                    from ..terms import alts_of
+                    alts = alts_of(d)
+                    R.check(pt in alts and alts <= {pt, ("call", "builtins.bytearray", (), ())} and rt[2] == ("slice", hdr, ("c", 1), ("c", -1), ("c", None)), rule, sub + "|fields",
+                            "payload record: fields between id and length, data = the payload just read",
+                            "record returned as (%s, %s): expected header[1:-1] and the payload just read" % (show(rt[2]), show(d)), f.loc(rn.ast))
     return {"hdr": hdr, "cid": cid, "payload": pt}
 
 
